@@ -603,4 +603,100 @@ theorem row_keys_eq (inp : Input) :
 theorem mem_rows (inp : Input) (r : Row) (hr : r ∈ (runOut inp).rows) : ∃ kr ∈ (run inp).rows, kr.2 = r := by
   simpa [runOut] using hr
 
+/-! ### out-of-scope rows come from pass three only; what pass three does in the excluded class -/
+
+def Scoped (inp : Input) : Ins → Prop
+  | .prime _ => True
+  | .put t p _ => inScope inp t p = true
+  | .putNew t p _ => inScope inp t p = true
+
+def ScopedRows (inp : Input) (l : LagMap) : Prop := ∀ kr ∈ l.rows, inScope inp kr.1.1 kr.1.2 = true
+
+theorem step_scoped (inp : Input) (l : LagMap) (i : Ins) (h : ScopedRows inp l) (hi : Scoped inp i) :
+    ScopedRows inp (step l i) := by
+  have hput : ∀ t p r, inScope inp t p = true → ScopedRows inp (put l t p r) := by
+    intro t p r hs kr hkr
+    rcases mem_ains _ _ _ _ hkr with e | hm
+    · subst e; exact hs
+    · exact h kr hm
+  cases i with
+  | prime t => intro kr hkr; rw [show (step l (.prime t)).rows = l.rows from prime_rows l t] at hkr; exact h kr hkr
+  | put t p r => exact hput t p r hi
+  | putNew t p r =>
+    simp only [step]; split
+    · exact h
+    · exact hput t p r hi
+
+theorem ins1From_scoped (inp : Input) (ms : List Member) (hms : ∀ m ∈ ms, m ∈ inp.members) (j : Nat) (i : Ins)
+    (h : i ∈ ins1From inp j ms) : Scoped inp i := by
+  induction ms generalizing j with
+  | nil => simp [ins1From] at h
+  | cons m ms ih =>
+    simp only [ins1From, List.mem_append] at h
+    rcases h with h | h
+    · unfold insMember1 at h
+      split at h
+      · rename_i hac
+        simp only [List.mem_append, List.mem_flatMap] at h
+        rcases h with ⟨tp, htp, h⟩ | h
+        · simp only [insTopic1, List.mem_cons, List.mem_map] at h
+          rcases h with h | ⟨p, hp, h⟩
+          · subst h; trivial
+          · subst h
+            show inScope inp tp.1 p = true
+            simp only [inScope, Bool.or_eq_true]
+            refine Or.inl ?_
+            simp only [assignedIn, List.any_eq_true, Bool.and_eq_true, beq_iff_eq, List.contains_eq_mem, decide_eq_true_eq]
+            exact ⟨m, hms m (by simp), hac, tp, htp, rfl, hp⟩
+        · split at h
+          · simp only [List.mem_map] at h; obtain ⟨t, _, h⟩ := h; subst h; trivial
+          · simp at h
+      · simp at h
+    · exact ih (fun m' hm' => hms m' (by simp [hm'])) (j + 1) h
+
+theorem ins2_scoped (inp : Input) (i : Ins) (h : i ∈ ins2 inp) : Scoped inp i := by
+  simp only [ins2, List.mem_flatMap] at h
+  obtain ⟨t, _, h⟩ := h
+  simp only [insTopic2, List.mem_cons, List.mem_flatMap] at h
+  rcases h with h | ⟨p, _, h⟩
+  · subst h; trivial
+  · split at h
+    · rename_i pc hpc
+      simp only [List.mem_singleton] at h; subst h
+      show inScope inp t p = true
+      simp [inScope, committedIn, hpc]
+    · simp at h
+
+theorem l2_scoped (inp : Input) : ScopedRows inp (l2 inp) := by
+  unfold l2
+  apply exec_inv (ScopedRows inp)
+  · apply exec_inv (ScopedRows inp)
+    · intro kr hkr; simp at hkr
+    · intro l i hl hi; exact step_scoped inp l i hl (ins1From_scoped inp inp.members (fun _ h => h) 0 i hi)
+  · intro l i hl hi; exact step_scoped inp l i hl (ins2_scoped inp i hi)
+
+/-- In the excluded class the code always reports a non-negative lag together with the error. -/
+theorem run_excluded_class (inp : Input) :
+    AllRows (fun r => thirdPassErrStart inp r.topic r.part = true → r.err ≠ 0 ∧ 0 ≤ r.lag) (run inp) := by
+  rw [run_eq]
+  refine (pass3_inv inp _ ?_ (l2 inp).topics (l2 inp) ⟨(l2_lawful inp).1, l2_cov inp, ?_⟩).2.2
+  · intro t p pe hpe hs hx
+    rw [(rowListed_keyed inp t p pe).1, (rowListed_keyed inp t p pe).2] at hx
+    simp only [thirdPassErrStart, hs, hpe, Bool.not_false, Bool.true_and, Bool.and_eq_true, bne_iff_ne] at hx
+    obtain ⟨h1, h2⟩ := hx
+    cases hst : get2 inp.start t p with
+    | none => rw [hst] at h2; simp at h2
+    | some st =>
+      rw [hst] at h2
+      have h4 : st.err = 0 := by simpa using h2
+      unfold rowListed
+      simp only [hst, h4, if_true]
+      refine ⟨h1, ?_⟩
+      split <;> omega
+  · intro kr hkr hx
+    have hk := (l2_lawful inp).1.keyok kr hkr
+    have hs := l2_scoped inp kr hkr
+    rw [hk.1, hk.2] at hx
+    simp [thirdPassErrStart, hs] at hx
+
 end Proof.C35
